@@ -5,11 +5,28 @@ Proof      : coq/Props/C07.v over Model/GC.v: for EVERY fault oracle (any number
              old files; every damage class of a reachable list / manifest aborts; markers whose stat / delete fails
              keep protecting.  normalize_path, the marker fallback and the constants are regenerated from the source
              (Gen/GenNorm.v); the try/except skeleton of collect & co. is pinned by translator/gen_norm.py.
+Markers    : the per-marker decision kernel of _load_inflight_protection is REGENERATED (translator/gen_gcmarker.py ->
+             Gen/GenGCMarker.v: age_ok as a function of the stat's answer, None = it raised; is the marker deleted; are its
+             targets protected; the translator refuses a loader whose markers are not the result of storage.list_files itself,
+             whose handlers are narrower than Exception, or that calls another storage operation).  C07_marker_loop_regenerated:
+             Model/GC.v's markers_loop IS the loop built from that kernel; C07_marker_stat_failure_protects /
+             C07_marker_kernel_fail_closed: a marker whose stat raises is fresh, not deleted, protects -- the only way a listed
+             marker does not protect is a stat that ANSWERED older than the cutoff plus a successful delete;
+             C07_marker_stat_fault_keeps_protection: for every fault oracle, a faulted stat of a listed marker leaves the store
+             as it was and the marker's targets in the protected set the loop returns.
 Tie        : correspondence `gc_faults`: tables with 1-4 retained snapshots (shared manifests, rewritten manifest,
              orphans, a live transaction, a commit in progress, an abandoned marker); a fault is injected at EVERY
-             storage call of the collection x {OSError, FileNotFoundError, non-OSError exception, unusable result
-             (exists->False, garbage bytes, listing + "../x")} by wrapping the storage object; the same fault plan
-             drives the model; compared: abort phase / completion, exact deleted set, keep sets, call trace.
+             storage operation of the collection x EVERY exception class a backend raises for it {OSError EIO,
+             FileNotFoundError / 404 for an object that IS there (listed, then unsearchable / not yet visible / vanished),
+             PermissionError, TimeoutError, a non-OSError SDK exception, the local backend's ValueError} + an unusable result
+             (exists->False, garbage bytes, listing + "../x").  The backend OBJECT is instrumented (gcsim.TracingStorage: a
+             subclass of the backend's own class with list_files / get_modified_time / read_file / open_file / exists /
+             delete_file / read_json overridden), not wrapped: a helper method of the backend that is composed from these
+             operations (a default implementation in StorageBackend, a convenience added later) has its constituent
+             operations recorded and faulted like the collector's own calls.  A sixth table runs on a THIRD-PARTY backend
+             (gcsim.minimal_backend: a StorageBackend subclass implementing only the abstract methods, every helper being
+             the base class's default).  The same fault plan drives the model; compared: abort phase / completion, exact
+             deleted set, keep sets, call trace.
              `gc_damage`: every damage class {missing, garbage, empty, cut inside the Avro block, cut in the header}
              on every reachable list / manifest, plus BYTE-LEVEL damage anywhere in the file -- single-byte flips and
              truncations over the header, the block framing, EVERY record and every sync marker (quick: spread + structural
@@ -76,7 +93,9 @@ THEOREMS = ["C07_fail_closed", "C07_damage", "C07_transient", "C07_partial_decod
             "C07_pointer_unreadable_never_used", "C07_marker_keep", "C07_registered_marker_fallback_covers",
             "C07_metadata_document_fail_closed", "C07_lost_section_refused", "C07_dangling_current_refused", "C07_run_protects_current_snapshot",
             "C07_json_section_lost_aborts", "C07_readable_records_complete", "C07_structured_damage_aborts",
-            "C07_list_record_without_path_refused"]
+            "C07_list_record_without_path_refused",
+            "C07_marker_stat_failure_protects", "C07_marker_kernel_fail_closed", "C07_marker_loop_regenerated",
+            "C07_marker_stat_fault_keeps_protection"]
 REQ = gcsim.REQ
 TIMEOUT_MS = h5.TIMEOUT_MS
 
@@ -106,7 +125,16 @@ MANIFEST_ENTRY = {
                   "C07_pointer_raise_aborts, C07_pointer_unreadable_never_used, C07_pointer_lost_hint_partial; the model's "
                   "fault handling is tied to the code by injecting a fault at every storage call of real collections (4 fault kinds; thorough: "
                   "pairs; pointer plane: every call of both resolutions incl. read_json of the metadata file, compared on the FILE worked "
-                  "from) and every damage class on every reachable metadata-plane file, comparing abort phase, deleted set and call trace",
+                  "from) and every damage class on every reachable metadata-plane file, comparing abort phase, deleted set and call trace; "
+                  "C07_marker_stat_failure_protects / C07_marker_kernel_fail_closed / C07_marker_loop_regenerated / "
+                  "C07_marker_stat_fault_keeps_protection (the per-marker decision kernel of _load_inflight_protection REGENERATED "
+                  "from the source, Gen/GenGCMarker.v: a marker whose stat raises -- any exception class -- counts as fresh, is not "
+                  "deleted and protects; the only way a listed marker does not protect is a stat that answered older than the cutoff "
+                  "plus a successful delete; the model's marker loop is the loop built from that kernel; for every fault oracle a "
+                  "faulted stat leaves the store unchanged and the marker's targets protected); faults are injected at the backend's "
+                  "OWN operations (instrumented subclass: helper methods of the backend composed from them are exercised) with every "
+                  "exception class per operation (EIO, 404 for a listed object, EACCES, timeout, SDK error, ValueError), on the local "
+                  "backend and on a third-party backend implementing only the abstract interface",
     "level_note": "C07_pointer_run_safe_partial carries the hypothesis `a_hint a2 <> PNone`; the statement without it "
                   "(C07_pointer_run_safe_full) is REFUTED in Coq (C07_pointer_run_safe_refuted): a pointer that looks absent at both "
                   "reads with a dead writer's unpublished higher version on storage makes the scan result the table and files the "
@@ -128,9 +156,12 @@ MANIFEST_ENTRY = {
                   "is skipped by collect()): recorded, not judged -- unless the metadata document contradicts itself afterwards "
                   "(dangling current_snapshot_id: judged); byte damage that still "
                   "decodes to DIFFERENT records (e.g. a flipped path character) is undetectable without checksums: recorded, not judged, "
-                  "not compared; a short read ending exactly on an Avro block boundary likewise; a stale hint naming an older "
+                  "not compared; a short read ending exactly on an Avro block boundary likewise; failures BELOW the local backend's "
+                  "operations (os.stat / os.scandir failing inside LocalStorageBackend, which turns some of them into 'not a file' or "
+                  "an empty listing) are not injected: faults are injected at the operations of the backend interface; a stale hint naming an older "
                   "existing version is C10's finding and only recorded; an abort raised by a sweep's own listing may follow deletions of "
-                  "true orphans (the property's second disjunct) -- stated and proved as such; local backend only",
+                  "true orphans (the property's second disjunct) -- stated and proved as such; local backend and a third-party backend "
+                  "over the same directory (S3: C09's harness)",
     "technique": "Coq proof for all fault oracles and all documents + reader shapes / collector checks regenerated by the translator + "
                  "exhaustive single-fault injection at every storage call and structured damage at every key path of every "
                  "metadata-plane document (differential)",
@@ -487,7 +518,7 @@ def run_table(spec: Dict[str, Any]) -> Dict[str, Any]:
             out["stats"]["fault_runs"] += 1
         # ---- the stream of a reachable list / manifest misbehaves PART-WAY (connection reset, short read): what that amounts to
         #      is decided by decoding the same faulty stream independently (fastavro only)
-        avro_targets = [] if spec.get("legacy_json") else targets        # byte positions / "still parses" are decided by an Avro decode
+        avro_targets = [] if spec.get("legacy_json") or spec.get("faults_only") else targets        # byte positions / "still parses" are decided by an Avro decode
         for role, ordinal, key in avro_targets:
             bs = open(os.path.join(root, key), "rb").read()
             orig = gcsim.avro_probe(gcsim.as_file(bs))
@@ -643,7 +674,7 @@ def run_table(spec: Dict[str, Any]) -> Dict[str, Any]:
                                                 f"files missing from its keep sets, deleting {gone[:4]} ({len(gone)} reachable / live file(s) in all)"})
             out["runs"].append(r)
 
-        if not (only is not None and only.get("type") not in (None, "doc")):
+        if not (only is not None and only.get("type") not in (None, "doc")) and not spec.get("faults_only"):
             meta_doc = json.loads(open(os.path.join(root, cur_meta)).read())
             # quick: every operation on the paths reachability flows through on every table; the other paths of the (same) metadata
             # format are covered completely on the tables with 1 and 2 snapshots and by a seeded third of them on the larger ones
@@ -918,8 +949,9 @@ def make_specs(ctx) -> List[Dict[str, Any]]:
         # every reachable list / manifest in the legacy JSON format (JSON fallback of the readers)
         {"snaps": 2, "rewrite": True, "expire": False, "multi_append": 2, "legacy_json": True},
         # the collection runs on a third-party backend: a StorageBackend subclass implementing only the abstract methods, so
-        # every helper with a default implementation in the base class is the default, composed from the primitives
-        {"snaps": 2, "rewrite": False, "expire": True, "legacy_marker": True, "backend": "thirdparty"},
+        # every helper with a default implementation in the base class is the default, composed from the primitives (faults_only:
+        # byte / stream / structured damage of documents is a matter of the decoders, not of the backend: not repeated here)
+        {"snaps": 2, "rewrite": False, "expire": True, "legacy_marker": True, "backend": "thirdparty", "faults_only": True},
     ]
     graces = [0] if quick else [0, 3600000]
     for vi, v in enumerate(variants):
@@ -1234,8 +1266,12 @@ def run(ctx) -> None:
                 "operation and key path)")
     ctx.trusted_base += [
         "translator/gen_norm.py (regenerated path kernel; try/except skeleton of collect / _load_inflight_protection / _marker_targets / _gc_prefix pinned)",
-        "harness: harness/props/c07.py, harness/lib/gcsim.py (fault injection by wrapping the storage backend object; independent reader; frozen clock)",
-        "fault model: FRaise = OSError/FileNotFoundError, FRaiseX = any non-OSError exception, FBad = unusable result; one fault changes one call",
+        "translator/gen_gcmarker.py (per-marker decision kernel of _load_inflight_protection; fail closed on a listing other than storage.list_files, "
+        "a handler narrower than Exception, any other storage operation)",
+        "harness: harness/props/c07.py, harness/lib/gcsim.py (fault injection at the backend's own operations through an instrumented subclass of "
+        "the backend's class; third-party backend = StorageBackend subclass with only the abstract methods; independent reader; frozen clock)",
+        "fault model: FRaise = an exception of the class the readers' Avro attempt catches (OSError incl. FileNotFoundError / PermissionError / "
+        "TimeoutError, ValueError), FRaiseX = any other exception, FBad = unusable result; one fault changes one call",
         "translator/gen_doc.py (reader shapes of _dict_to_metadata / read_manifest(_list)_file; which dataclasses validate); harness/lib/docdamage.py",
         "external validations measured per document and passed to the model as the parameter `ext`: Schema(...) on the items of `schemas`; "
         "the int()-keyed statistics maps of a manifest entry",
@@ -1250,7 +1286,7 @@ def run(ctx) -> None:
         "pointer plane: `same` (the dict comparison of the two TableMetadata objects) distinguishes documents with different snapshot lists; a "
         "pointer that answers 'absent' at both reads is a lost pointer for the library (scan result = the table): C07_pointer_run_safe_refuted",
     ]
-    ctx.proofs(THEOREMS, gen_files=["GenNorm.v", "GenDoc.v"])
+    ctx.proofs(THEOREMS, gen_files=["GenNorm.v", "GenDoc.v", "GenGCMarker.v"])
     ctx.allow_axioms([])
     run_campaign(ctx)
 
